@@ -4,6 +4,7 @@
 f3_0:
   ret
   call f9_0
+  mov wvsv1@GOTPCREL(%rip),%rax
   ret
 .section wvset0,"aw",@progbits
   .quad f10_0
